@@ -22,7 +22,7 @@ ASSUMPTIONS = [
     "virtual clock; AF_UNIX socketpairs as in C04",
     "a 'probe' of an entry point is a maximal run of identical frames with no delivery in between",
 ]
-MUST = ["final_silent_exact", "prefix_success_after_drops", "prefix_exhausted", "prefix_rejected", "prefix_send_error",
+MUST = ["full_timeout_after_corrupt_answer", "final_silent_exact", "prefix_success_after_drops", "prefix_exhausted", "prefix_rejected", "prefix_send_error",
         "prefix_recv_error", "loop_change", "connect_probe", "discover_probe", "search_probe", "detected_family_probe",
         "connected_then_silent"]
 EXHAUSTIVE = {"quick": True, "thorough": True}
@@ -31,7 +31,7 @@ EPS = 1e-6
 
 
 def classes(R):
-    cs = ["ok0", "exh", "senderr", "recverr"]
+    cs = ["ok0", "exh", "senderr", "recverr", "badlate_ok", "badlate_exh"]
     cs += [f"ok{k}" for k in range(1, R + 1)]
     cs += [f"rej{j}" for j in range(0, R + 1)]
     return cs
@@ -46,6 +46,10 @@ def script_for(cls, R):
         return ["drop"] * (R + 1)
     if cls.startswith("rej"):
         return ["drop"] * int(cls[3:]) + [["exc", 2]]
+    if cls == "badlate_ok":        # corrupted answer half a timeout late, then the retransmission answered 0.8 T late
+        return ["badsumlate", ["delay", "0.8T"]]
+    if cls == "badlate_exh":       # corrupted answer half a timeout late, then silence
+        return ["badsumlate"] + ["drop"] * (R + 1)
     if cls == "senderr":
         return ["now", "now", "now", "now", "now"]
     if cls == "recverr":
@@ -59,7 +63,7 @@ def scenario(transport, ka, T, R, prefix, newloop):
     groups = []
     for i, cls in enumerate(prefix):
         reg = 100 + i
-        by_reg[reg] = script_for(cls, R)
+        by_reg[reg] = [(["delay", 0.8 * T] if x == ["delay", "0.8T"] else x) for x in script_for(cls, R)]
         steps = []
         if cls == "senderr":
             steps.append(["arm_send_fault", errno.ENETUNREACH])
@@ -115,6 +119,29 @@ def check_history(sc, run, part: Part):
                             f"{ctx}: outcome {rec['outcome']} with {len(txt)} transmissions, expected rejection on #{j + 1}"))
             else:
                 part.count("prefix_rejected")
+        elif cls == "badlate_ok":
+            # TCP reports a malformed answer at once as RequestRejectedException('') (by design, see C09)
+            if tr == "udp" and R >= 1:
+                want = [rec["t0"], rec["t0"] + 0.5 * T]
+                ok = rec["outcome"] == "ok" and len(txt) == 2 and all(abs(a - b) < EPS for a, b in zip(txt, want)) and \
+                    abs(rec["t1"] - (rec["t0"] + 1.3 * T)) < EPS
+                if not ok:
+                    out.append((f"C05/{tr}/timeout-cut-short",
+                                f"{ctx}: corrupted answer at +{0.5 * T}, retransmission answered {0.8 * T} later (inside its own timeout): "
+                                f"outcome {rec['outcome']} at +{round(rec['t1'] - rec['t0'], 6)}, transmissions at {[round(t - rec['t0'], 6) for t in txt]}"))
+                else:
+                    part.count("full_timeout_after_corrupt_answer")
+        elif cls == "badlate_exh":
+            if tr == "udp":
+                want = [rec["t0"]] + [rec["t0"] + 0.5 * T + k * T for k in range(R)]
+                ok = len(txt) == len(want) and all(abs(a - b) < EPS for a, b in zip(txt, want)) and \
+                    abs(rec["t1"] - (want[-1] + T if R >= 1 else rec["t0"] + 0.5 * T)) < EPS and rec["outcome"] == "RequestFailedException"
+                if not ok:
+                    out.append((f"C05/{tr}/timeout-cut-short",
+                                f"{ctx}: corrupted answer at +{0.5 * T} then silence: transmissions at {[round(t - rec['t0'], 6) for t in txt]}, "
+                                f"ended {rec['outcome']} at +{round(rec['t1'] - rec['t0'], 6)}; expected {[round(w - rec['t0'], 6) for w in want]}"))
+                else:
+                    part.count("full_timeout_after_corrupt_answer")
         elif cls == "senderr":
             if any(e[1] == "txerr" for e in engine.events_of_call(run, rec["id"])):
                 part.count("prefix_send_error")
